@@ -28,7 +28,9 @@ IMPORTS = ("From LV Require Import Common.Cases Cluster.Flat Cluster.FlatQ Wordl
 BITS = {0: "correspondence: the heap model's prediction differs from what the implementation did "
            "(contents, raised flag, or which header/row objects are shared)",
         1: "separation: two objects share a header object or a row list",
-        2: "frame: a step changed an object other than the one it was applied to",
+        2: "frame: a step changed an object other than the one it was applied to, or a caller-owned argument "
+           "(a dictionary's header list / row list objects, keys or meta entries; the source dictionary or value "
+           "handed to the call)",
         3: "purity: the matrix (or taxa list) passed to a clustering/tree function was modified",
         4: "idempotence: the second call with the same arguments gave a different answer"}
 
@@ -102,6 +104,7 @@ def rand_free_value(rng):
 
 
 def value_for(rng, col):
+    col = col.strip()
     if col == "doculect":
         return rng.choice(DOCULECTS)
     if col == "concept":
@@ -123,6 +126,7 @@ def gen_dict(rng, bare=False):
         if rng.random() < 0.5:
             rng.shuffle(hdr)
         hdr += rng.sample(FREE, rng.choice([0, 0, 1, 2]))
+    with_alm = (not bare) and rng.random() < 0.2      # stored alignments (list cells) in the source
     n = rng.choice([2, 3, 3, 4, 4, 5, 6])
     ids = rng.sample(range(1, 13), n)
     if rng.random() < 0.5:
@@ -143,9 +147,32 @@ def gen_dict(rng, bare=False):
                 cells.append(toks)
             elif name == "ipa":
                 cells.append("".join(toks))
+            elif name == "cogid" and with_alm:
+                cells.append(rng.choice([1, 1, 2]))
             else:
                 cells.append(value_for(rng, name))
         rows.append([i, cells])
+    if with_alm:
+        # an ALIGNMENT column: per cognate set rows of equal length, often with a column that
+        # consists of gaps only (what is left when a word was taken out of the set)
+        ti, ci = hdr.index("tokens"), hdr.index("cogid")
+        groups = {}
+        for _, cells in rows:
+            groups.setdefault(cells[ci], []).append(cells)
+        for cells_list in groups.values():
+            width = max(len(c[ti]) for c in cells_list)
+            gap_at = rng.randrange(width + 1) if len(cells_list) > 1 and rng.random() < 0.75 else None
+            for c in cells_list:
+                alm = list(c[ti]) + ["-"] * (width - len(c[ti]))
+                if gap_at is not None:
+                    alm.insert(gap_at, "-")
+                c.append(alm)
+        hdr = hdr + ["alignment"]
+    if rng.random() < 0.15:
+        # column names as they come from splitting a line by hand: stray blanks, a line break
+        cand = [k for k, nm in enumerate(hdr) if nm not in ("doculect", "concept", "tokens") or rng.random() < 0.15]
+        for k in rng.sample(cand, min(len(cand), rng.choice([1, 1, 2]))):
+            hdr[k] = rng.choice([" %s", "%s\n", "%s ", "\t%s"]) % hdr[k]
     st = {"op": "newdict", "hdr": hdr, "rows": rows}
     # meta entries (string keys) of the caller's dictionary; 'filename' is the one the
     # constructor looks at.  "front" = inserted before the header key
@@ -190,11 +217,12 @@ def gen_case(rng, max_steps=12):
         wls = [k for k in live if shadow[k]["kind"] == "wl"]
         dcs = [k for k in live if shadow[k]["kind"] == "dict"]
         kind = want or rng.choices(
-            ["cons", "add", "set", "dictop", "cluster", "align", "renumber", "newdict"],
+            ["cons", "add", "set", "dictop", "cluster", "align", "renumber", "newdict", "calculate"],
             weights=[22, 26 if wls else 0, 18 if wls else 0, 14 if dcs else 0,
                      8 if any(shadow[k]["cls"] == "LexStat" for k in wls) else 0,
                      5 if any(shadow[k]["cls"] == "Alignments" for k in wls) else 0,
-                     4 if wls else 0, 3])[0]
+                     4 if wls else 0, 3,
+                     4 if any(shadow[k]["cls"] != "QLCParser" for k in wls) else 0])[0]
         if kind == "newdict":
             st = gen_dict(rng, bare=rng.random() < 0.1)
             steps.append(st)
@@ -221,7 +249,7 @@ def gen_case(rng, max_steps=12):
         elif kind == "add":
             tgt = rng.choice(wls[-3:]) if rng.random() < 0.75 else rng.choice(wls)
             o = shadow[tgt]
-            free_present = [c for c in o["hdr"] if c in FREE]
+            free_present = [c for c in o["hdr"] if c.strip() in FREE]
             c = rng.random()
             if c < 0.6 or not free_present:
                 cand = [x for x in FREE if x not in o["hdr"]] or FREE
@@ -254,8 +282,8 @@ def gen_case(rng, max_steps=12):
             tgt = rng.choice(wls[-3:]) if rng.random() < 0.75 else rng.choice(wls)
             o = shadow[tgt]
             i = rng.choice(o["ids"]) if o["ids"] and rng.random() < 0.87 else rng.randint(13, 15)
-            ok_cols = [c for c in o["hdr"] if c in FREE or c in ("ipa", "tokens", "cogid") or
-                       (c in ("doculect", "concept") and o["cls"] in ("QLCParser", "Wordlist"))]
+            ok_cols = [c for c in o["hdr"] if c.strip() in FREE or c.strip() in ("ipa", "tokens", "cogid") or
+                       (c.strip() in ("doculect", "concept") and o["cls"] in ("QLCParser", "Wordlist"))]
             col = rng.choice(ok_cols) if ok_cols and rng.random() < 0.88 else rng.choice(["zz", "xq"])
             steps.append({"op": "set", "tgt": tgt, "id": i, "col": col, "val": value_for(rng, col)})
         elif kind == "dictop":
@@ -297,10 +325,16 @@ def gen_case(rng, max_steps=12):
             tgt = rng.choice([k for k in wls if shadow[k]["cls"] == "Alignments"])
             steps.append({"op": "align", "tgt": tgt, "method": rng.choice(["progressive", "library"]),
                           "iteration": rng.random() < 0.4, "swap_check": rng.random() < 0.3})
+        elif kind == "calculate":
+            tgt = rng.choice([k for k in wls if shadow[k]["cls"] != "QLCParser"])
+            steps.append({"op": "calculate", "tgt": tgt, "data": rng.choice(["tree", "groups", "dst", "groups"]),
+                          "cluster_method": rng.choice(["upgma", "single", "complete", "ward", "mcl"]),
+                          "tree_calc": rng.choice(["upgma", "neighbor"]), "threshold": rng.choice([0.3, 0.5, 0.75])})
         elif kind == "renumber":
             tgt = rng.choice(wls)
             o = shadow[tgt]
-            src = rng.choice([c for c in o["hdr"] if c in ("concept", "doculect", "cogid", "ipa") or c in FREE] or ["zz"])
+            src = rng.choice([c for c in o["hdr"] if c.strip() in ("concept", "doculect", "cogid", "ipa") or c.strip() in FREE]
+                             or ["zz"])
             steps.append({"op": "renumber", "tgt": tgt, "source": src, "override": rng.random() < 0.5})
             if src + "id" not in o["hdr"]:
                 o["hdr"].append(src + "id")
@@ -497,6 +531,20 @@ def run_hist(case):
     info = {"nested_shared": 0, "meta_shared": 0, "raised": 0, "analysis_raised": 0, "unexplained": 0}
     saved_confirm = lparser.confirm
     prev = []
+    owned = {}          # object index of a dictionary -> (key list, list objects, deep copy of the meta entries)
+
+    def dicts_intact():
+        for k, (keys, lists, meta) in owned.items():
+            d = objs[k]
+            if list(d.keys()) != keys:
+                return False
+            for key in keys:
+                if isinstance(key, int):
+                    if d[key] is not lists[key]:
+                        return False
+                elif Intern.canon(d[key]) != meta[key]:
+                    return False
+        return True
     try:
         with _Quiet():
             for st in case["steps"]:
@@ -504,6 +552,7 @@ def run_hist(case):
                 raised = False
                 err = ""
                 mops = None
+                args = []           # (argument object, canonical deep value before the call)
                 tgt = st.get("tgt")
                 if op == "newdict":
                     d = {}
@@ -517,6 +566,8 @@ def run_hist(case):
                     for k, v in meta:
                         d.setdefault(k, copy.deepcopy(v))
                     objs.append(d)
+                    owned[len(objs) - 1] = (list(d.keys()), {k: v for k, v in d.items() if isinstance(k, int)},
+                                            {k: Intern.canon(v) for k, v in d.items() if not isinstance(k, int)})
                     mops = ["(ONewDict %s %s)" % (
                         L.zlist([intern.code(n) for n in st["hdr"]]),
                         L.lst([L.pair(L.z(i), L.zlist([intern.code(c) for c in cells])) for i, cells in st["rows"]]))]
@@ -568,8 +619,9 @@ def run_hist(case):
                         if "cols" in source:
                             o.add_entries(st["entry"], ",".join(source["cols"]), f, override=st["override"])
                         else:
-                            o.add_entries(st["entry"], {int(i): copy.deepcopy(v) for i, v in source["dict"]}, f,
-                                          override=st["override"])
+                            srcd = {int(i): copy.deepcopy(v) for i, v in source["dict"]}
+                            args.append((srcd, Intern.canon(srcd)))
+                            o.add_entries(st["entry"], srcd, f, override=st["override"])
                     except Exception as e:          # noqa
                         raised, err = True, "%s: %s" % (type(e).__name__, e)
                     if "cols" in source:
@@ -581,7 +633,9 @@ def run_hist(case):
                         L.nat(tgt), L.z(intern.code(st["entry"])), msrc, tab, L.b(st["override"]), L.b(st["answer"]))]
                 elif op == "set":
                     try:
-                        objs[tgt][st["id"], st["col"]] = copy.deepcopy(st["val"])
+                        val = copy.deepcopy(st["val"])
+                        args.append((val, Intern.canon(val)))
+                        objs[tgt][st["id"], st["col"]] = val
                     except Exception as e:          # noqa
                         raised, err = True, "%s: %s" % (type(e).__name__, e)
                     mops = ["(OSet %s %s %s %s)" % (L.nat(tgt), L.z(st["id"]), L.z(intern.code(st["col"])),
@@ -605,7 +659,7 @@ def run_hist(case):
                         mops = ["(ODApp %s %s %s)" % (L.nat(tgt), L.z(st["id"]), L.z(intern.code(st["val"])))]
                     else:
                         mops = ["(ODHdr %s %s)" % (L.nat(tgt), L.z(intern.code(st["name"])))]
-                elif op in ("cluster", "align", "renumber"):
+                elif op in ("cluster", "align", "renumber", "calculate"):
                     o = objs[tgt]
                     lparser.confirm = lambda q: True
                     try:
@@ -617,6 +671,9 @@ def run_hist(case):
                         elif op == "align":
                             o.align(method=st["method"], iteration=st.get("iteration", False),
                                     swap_check=st.get("swap_check", False))
+                        elif op == "calculate":
+                            o.calculate(st["data"], ref="cogid", cluster_method=st["cluster_method"],
+                                        tree_calc=st["tree_calc"], threshold=st["threshold"], force=True)
                         else:
                             o.renumber(st["source"], override=st["override"])
                     except Exception as e:          # noqa
@@ -632,7 +689,10 @@ def run_hist(case):
                     raise AssertionError(op)
                 snap = observe(objs, intern)
                 info["raised"] += raised
-                out_steps.append({"mops": mops, "tgt": tgt, "raised": raised, "err": err[:200], "snap": snap})
+                same = dicts_intact() and all(Intern.canon(a) == c for a, c in args)
+                info["args_changed"] = info.get("args_changed", 0) + (not same)
+                out_steps.append({"mops": mops, "tgt": tgt, "raised": raised, "err": err[:200], "snap": snap,
+                                  "args_same": same})
                 prev = snap
             info["nested_shared"] = nested_sharing(objs)
             info["meta_shared"] = meta_sharing(objs)
@@ -652,8 +712,9 @@ def _render_snap(snap):
 def render_hist(case, res):
     steps = []
     for st in res["steps"]:
-        steps.append("(mkStep %s %s %s %s)" % (
-            L.lst(st["mops"]), L.opt(st["tgt"], L.nat), L.b(st["raised"]), _render_snap(st["snap"])))
+        steps.append("(mkStep %s %s %s %s %s)" % (
+            L.lst(st["mops"]), L.opt(st["tgt"], L.nat), L.b(st["raised"]), L.b(st["args_same"]),
+            _render_snap(st["snap"])))
     return "(Build_heap_case %s)" % L.lst(steps)
 
 
@@ -680,6 +741,10 @@ def hist_classify(case, res):
         out.append("op=" + st["op"] + ("/raised" if o["raised"] else ""))
         if st["op"] == "cons":
             out.append("cons=" + st["cls"] + ("/raised" if o["raised"] else ""))
+        if st["op"] == "newdict" and any(n != n.strip() for n in st["hdr"]):
+            out.append("dict_with_blank_in_column_name")
+        if st["op"] == "newdict" and "alignment" in [n.strip() for n in st["hdr"]]:
+            out.append("dict_with_alignment_column")
         if st["op"] == "newdict" and st.get("meta"):
             out.append("dict_with_meta")
             if any(k == "filename" for k, _ in st["meta"]):
@@ -699,7 +764,7 @@ def hist_jsonable(case, res=None):
     c = {"family": "hist", "steps": case["steps"]}
     if res is not None:
         c["impl"] = {"info": res["info"],
-                     "steps": [{"raised": s["raised"], "err": s["err"], "tgt": s["tgt"], "model_ops": s["mops"],
+                     "steps": [{"raised": s["raised"], "err": s["err"], "tgt": s["tgt"], "args_same": s["args_same"], "model_ops": s["mops"],
                                 "snapshot": s["snap"]} for s in res["steps"]]}
     return c
 
@@ -764,7 +829,14 @@ COQ_METH = {"upgma": "Upgma", "single": "Single", "complete": "Complete", "ward"
 
 PURE_FUNS = ["flat", "flat", "flat", "flat_upgma", "upgma", "neighbor", "fuzzy", "matrix2tree", "matrix2groups",
              "mcl", "link_clustering", "find_threshold", "best_threshold", "partition_density"]
-NUMPY_OK = {"flat", "flat_upgma", "upgma", "neighbor", "mcl", "matrix2groups", "partition_density"}
+NUMPY_OK = {"flat", "flat_upgma", "upgma", "neighbor", "mcl", "matrix2groups", "partition_density",
+            "low_flat", "low_flat_upgma", "low_upgma", "low_neighbor"}
+# the functions of algorithm/cython/_cluster.py called directly (matrix2groups and Wordlist.calculate do so)
+LOW_FUNS = ["low_flat", "low_flat", "low_flat_upgma", "low_upgma", "low_neighbor"]
+# functions that take an alignment (a list of caller-owned rows of segments); the "matrix" of such a
+# case holds symbol numbers: 0 = gap
+ALM_FUNS = ["normalize_alignment", "normalize_alignment", "reduce_alignment", "mult_align"]
+ALM_SYMS = ["-", "p", "t", "k", "a", "i", "u", "m", "(", ")"]
 
 
 def gen_matrix(rng, n):
@@ -786,8 +858,34 @@ def gen_matrix(rng, n):
     return kind, m
 
 
+def gen_alignment(rng, fun):
+    rows = rng.randint(2, 5)
+    width = rng.randint(2, 5)
+    letters = list(range(1, 8))
+    m = [[rng.choice(letters) if rng.random() < 0.75 else 0 for _ in range(width)] for _ in range(rows)]
+    c = rng.random()
+    if c < 0.45:                                   # a column of gaps only
+        j = rng.randrange(width)
+        for r in m:
+            r[j] = 0
+    elif c < 0.6:                                  # rows of different length
+        for r in m:
+            del r[rng.randint(1, width):]
+    if fun == "reduce_alignment" and width >= 3 and rng.random() < 0.7:
+        a, b = sorted(rng.sample(range(width), 2))
+        for r in m:
+            r[:] = (r + [0] * width)[:width]
+            r[a], r[b] = 8, 9                       # a bracketed part that is to be ignored
+    if fun == "mult_align":
+        m = [[x for x in r if 0 < x < 8] or [1] for r in m]
+    return [[F(x) for x in r] for r in m]
+
+
 def gen_pure(rng, max_n=7):
-    fun = rng.choice(PURE_FUNS)
+    fun = rng.choice(PURE_FUNS + LOW_FUNS + ALM_FUNS)
+    if fun in ALM_FUNS:
+        m = gen_alignment(rng, fun)
+        return {"fun": fun, "n": len(m), "kind": "alignment", "matrix": m, "thr": F(1, 2), "numpy": False}
     n = rng.randint(3, max_n) if fun != "flat" else rng.randint(1, max_n)
     kind, m = gen_matrix(rng, n)
     case = {"fun": fun, "n": n, "kind": kind, "matrix": m, "thr": rng.choice(THRESH),
@@ -802,7 +900,11 @@ def gen_pure(rng, max_n=7):
     elif fun in ("fuzzy",):
         case["method"] = rng.choice(["upgma", "single", "complete"])
     elif fun == "matrix2groups":
-        case["method"] = rng.choice(["upgma", "single", "complete", "mcl"])
+        case["method"] = rng.choice(["upgma", "single", "complete", "mcl", "ward", "ward"])
+    elif fun == "low_flat":
+        case["method"] = rng.choice(["upgma", "single", "complete", "ward", "ward"])
+    elif fun in ("low_upgma", "low_neighbor"):
+        case["distances"] = rng.random() < 0.5
     elif fun == "matrix2tree":
         case["method"] = rng.choice(["upgma", "neighbor"])
     elif fun in ("upgma", "neighbor"):
@@ -832,9 +934,16 @@ def _mat_snapshot(m):
 def run_pure(case):
     import numpy as np
     from lingpy.algorithm import clustering as C
+    from lingpy.algorithm.cython import _cluster as LC
     n = case["n"]
-    fm = [[float(x) for x in r] for r in case["matrix"]]
-    m = np.array(fm) if case["numpy"] else fm
+    isalm = case["fun"] in ALM_FUNS
+    if isalm:
+        m = [[ALM_SYMS[int(x)] for x in r] for r in case["matrix"]]
+        snapshot = lambda a: [[F(ALM_SYMS.index(x)) if x in ALM_SYMS else F(-1) for x in row] for row in a]
+    else:
+        fm = [[float(x) for x in r] for r in case["matrix"]]
+        m = np.array(fm) if case["numpy"] else fm
+        snapshot = _mat_snapshot
     taxa = ["t%d" % i for i in range(n)]
     taxa0 = list(taxa)
     thr = float(case["thr"])
@@ -865,6 +974,23 @@ def run_pure(case):
             return C.best_threshold(m)
         if fun == "partition_density":
             return C.partition_density(m, thr)
+        if fun == "low_flat":
+            return LC.flat_cluster(case["method"], thr, m)
+        if fun == "low_flat_upgma":
+            return LC.flat_upgma(thr, m)
+        if fun == "low_upgma":
+            return LC.upgma(m, taxa, case["distances"])
+        if fun == "low_neighbor":
+            return LC.neighbor(m, taxa, case["distances"])
+        if fun == "normalize_alignment":
+            from lingpy.read.qlc import normalize_alignment
+            return normalize_alignment(m)
+        if fun == "reduce_alignment":
+            from lingpy.read.qlc import reduce_alignment
+            return reduce_alignment(m)
+        if fun == "mult_align":
+            from lingpy.align.multiple import mult_align
+            return mult_align(m)
         raise AssertionError(fun)
 
     outs, afters, raw = [], [], []
@@ -876,7 +1002,7 @@ def run_pure(case):
                 r = "EXC:" + type(e).__name__
             raw.append(r)
             outs.append(json.dumps(_canon_result(r), sort_keys=True))
-            afters.append(_mat_snapshot(m))
+            afters.append(snapshot(m))
     res = {"res": outs, "after": afters, "taxa0": taxa0, "taxa2": list(taxa)}
     if fun in ("flat", "flat_upgma") and all(isinstance(r, dict) for r in raw):
         res["flat"] = [[(int(k), [int(i) for i in v]) for k, v in r.items()] for r in raw]
@@ -929,6 +1055,14 @@ def pure_jsonable(case, res=None):
 
 def pure_shrink(case):
     n, m = case["n"], case["matrix"]
+    if case["fun"] in ALM_FUNS:
+        for drop in range(n):
+            if n > 2:
+                c = dict(case)
+                c["n"] = n - 1
+                c["matrix"] = m[:drop] + m[drop + 1:]
+                yield c
+        return
     if n > (1 if case["fun"] == "flat" else 3):
         for drop in range(n):
             keep = [i for i in range(n) if i != drop]
